@@ -16,7 +16,11 @@ import hashlib, json, os, re, shutil, subprocess, sys, time
 VERIF = os.path.dirname(os.path.dirname(os.path.abspath(__file__)))
 SPEC = os.path.join(VERIF, 'spec')
 HARNESS = os.path.join(VERIF, 'harness')
-REPO = '/repo'
+# The tree under verification. Always /repo for the registered checks; the
+# seeded-change tool (bin/seedtest) points it at a scratch worktree with the
+# change applied so that several changes can be evaluated in parallel without
+# touching /repo.
+REPO = os.environ.get('VERIF_REPO', '/repo')
 
 GOENV = dict(GOFLAGS='-mod=mod', GOPROXY='off', GOSUMDB='off', GOTOOLCHAIN='local')
 
@@ -65,6 +69,11 @@ def build_harness(ctx):
     hdir = os.path.join(ctx.work, 'harness')
     shutil.copytree(HARNESS, hdir)
     shutil.copy(os.path.join(REPO, 'go.sum'), os.path.join(hdir, 'go.sum'))
+    if REPO != '/repo':
+        gm = os.path.join(hdir, 'go.mod')
+        txt = open(gm).read().replace('=> /repo', '=> ' + REPO)
+        open(gm, 'w').write(txt)
+    ctx.work_replays = REPO != '/repo'
     out = os.path.join(ctx.work, 'lzdrive')
     env = dict(os.environ, **GOENV)
     p = subprocess.run(['go', 'build', '-tags', 'verif', '-o', out, './cmd/lzdrive'],
@@ -78,6 +87,18 @@ def build_harness(ctx):
 # ----------------------------------------------------------------------------
 # TLC
 # ----------------------------------------------------------------------------
+def build_race_harness(ctx):
+    """lzdrive with the Go race detector (used for the concurrency clause of C13)."""
+    hdir = os.path.join(ctx.work, 'harness')
+    out = os.path.join(ctx.work, 'lzdrive-race')
+    env = dict(os.environ, **GOENV)
+    p = subprocess.run(['go', 'build', '-race', '-tags', 'verif', '-o', out, './cmd/lzdrive'],
+                       cwd=hdir, env=env, stdout=subprocess.PIPE, stderr=subprocess.STDOUT, text=True)
+    if p.returncode != 0:
+        raise Infra('race build of the harness failed:\n' + p.stdout[-3000:])
+    return out
+
+
 def tlc(ctx, module, cfg, args=(), env=None, timeout=900, workers=None):
     ctx.n_tlc += 1
     meta = os.path.join(ctx.work, 'meta%d' % ctx.n_tlc)
@@ -224,13 +245,15 @@ def go_gen(ctx, gen, n, seed, extra=()):
     return read_ndjson(path)
 
 
-def drive(ctx, scripts, name='trace', call_timeout='3s'):
+def drive(ctx, scripts, name='trace', call_timeout='3s', binary=None, race_out=None):
     spath = os.path.join(ctx.work, name + '.scripts.ndjson')
     tpath = os.path.join(ctx.work, name + '.ndjson')
     write_ndjson(spath, scripts)
     env = dict(os.environ, GOMEMLIMIT='6GiB')
+    if race_out is not None:
+        env['GORACE'] = 'exitcode=0 log_path=' + race_out
     try:
-        p = subprocess.run([ctx.lzdrive, 'run', '-scripts', spath, '-out', tpath, '-call-timeout', call_timeout],
+        p = subprocess.run([binary or ctx.lzdrive, 'run', '-scripts', spath, '-out', tpath, '-call-timeout', call_timeout],
                            stdout=subprocess.PIPE, stderr=subprocess.STDOUT, text=True, env=env, timeout=3000)
     except subprocess.TimeoutExpired:
         raise Infra('driver did not finish')
@@ -381,6 +404,8 @@ def judge(ctx, trace_module, scripts, trace_path, bad, owners, revalidate=True, 
 
 def write_replay(ctx, script, evs, idx, mine, why):
     d = os.path.join(VERIF, 'replays', ctx.prop)
+    if getattr(ctx, 'work_replays', False):
+        d = os.path.join('/tmp', 'seed-replays', ctx.prop)
     os.makedirs(d, exist_ok=True)
     body = dict(property=ctx.prop, rules=mine, all_broken_rules=why, rejected_event_index=idx,
                 rejected_event=evs[idx], script=script, trace=evs[:idx + 1])
@@ -403,6 +428,8 @@ def write_evidence(ctx, coverage, assumptions, violations, level='model_checking
     ev = dict(property_id=ctx.prop, tier=ctx.tier, seed=ctx.seed, level=level, coverage=cov,
               assumptions=assumptions, wall_s=round(time.time() - ctx.t0, 1), violations=violations)
     path = os.path.join(VERIF, 'evidence', ctx.prop + '.json')
+    if getattr(ctx, 'work_replays', False):   # scratch tree: do not touch the committed evidence
+        path = os.path.join(ctx.work, 'evidence-' + ctx.prop + '.json')
     tmp = path + '.tmp'
     json.dump(ev, open(tmp, 'w'), indent=1)
     os.replace(tmp, path)
